@@ -859,6 +859,26 @@ class Exec:
             a = self.operand(ins.args[0], env)
             b = self.operand(ins.args[1], env)
             f = {"fadd": z3.fpAdd, "fsub": z3.fpSub, "fmul": z3.fpMul, "fdiv": z3.fpDiv}[op]
+            if op == "fdiv":
+                # x / 2^k and x * 2^-k are the correctly rounded images of the same real number (and agree on zeros, infinities
+                # and NaN), so division by a power of two whose reciprocal is a normal number is encoded as that product;
+                # the optimiser performs exactly this rewrite and the multiplier is far cheaper than the divider
+                bs = simp(b)
+                if z3.is_fp_value(bs) and not bs.isNaN() and not bs.isInf() and not bs.isZero() and not bs.isSubnormal():
+                    eb, sb = bs.ebits(), bs.sbits()
+                    if bs.significand_as_long() == 0:
+                        e = bs.exponent_as_long(biased=True)
+                        bias = (1 << (eb - 1)) - 1
+                        e2 = 2 * bias - e              # biased exponent of the reciprocal
+                        if 1 <= e2 <= 2 * bias:
+                            sign = 1 if bs.isNegative() else 0
+                            rec = z3.fpFP(z3.BitVecVal(sign, 1), z3.BitVecVal(e2, eb), z3.BitVecVal(0, sb - 1))
+                            f, b = z3.fpMul, simp(rec)
+            if op in ("fadd", "fmul") or f is z3.fpMul:
+                # IEEE addition and multiplication are commutative (one NaN in SMT-LIB): fix an operand order so that a
+                # commuted instruction is the same term
+                if a.get_id() > b.get_id():
+                    a, b = b, a
             env[ins.dest] = f(RNE, a, b)
         elif op == "fneg":
             env[ins.dest] = z3.fpNeg(self.operand(ins.args[0], env))
